@@ -111,14 +111,17 @@ def pow_pauli_combination(
 
     if any(isinstance(a, sympy.Basic) for a in [ax, ay, az]):
         v = sympy.sqrt(ax * ax + ay * ay + az * az)
+        v_is_negligible = v == 0
     else:
         v = np.sqrt(ax * ax + ay * ay + az * az).item()
+        v_is_negligible = abs(v) <= 1e-8 * abs(ai)
     s = (ai + v) ** exponent
     t = (ai - v) ** exponent
 
     ci = (s + t) / 2
-    if s == t:
+    if s == t and v_is_negligible:
         # v is near zero, only one term in binomial expansion survives
+        # (s == t alone does not tell: (1 + i)^4 == (1 - i)^4 with v = i)
         cxyz = exponent * ai ** (exponent - 1)
     else:
         # v is non-zero, account for all terms of binomial expansion
